@@ -1,4 +1,5 @@
 import SdbModel.Lemmas.Serial
+import SdbModel.Lemmas.SerialExec
 import SdbModel.Generated.Protocol
 
 /-!
@@ -49,6 +50,13 @@ theorem C05_commit_increments_current (s : State) (hr : Reachable s) (i : Nat) (
   by_cases hx : x ∈ t.tabs
   · simp [hx, C05_writer_sees_latest s hr i t hi hp x hx]
   · simp [hx]
+
+/-- the executable step function with which the sched driver replays every run
+    of `Model.Conc` only takes steps of `Model.Serial`: whatever the replay
+    reaches is a `Reachable` state, so the theorems above apply to it -/
+theorem C05_replayed_runs_are_reachable (evs : List Ev) (s' : State)
+    (h : evs.foldlM stepFn ({} : State) = some s') : Reachable s' :=
+  replay_reachable evs {} .init s' h
 
 /-! ## non-vacuity: a reachable state with two committed transactions on table 0 -/
 example : ∃ s, Reachable s ∧ s.root 0 = 1 := by
